@@ -105,6 +105,16 @@ def check_zone(ctx, tz, label, z, rz, rng, fhash, full=True):
             bad.append('tzname() %r, the data says %r' % (got[2], exp[2]))
         if not wild and not exp[1] and got[3] != D.timedelta(0):
             bad.append('dst() is %r at a standard-time instant' % (got[3],))
+        if not wild and not bad and ts + 200000 < (rz.trans[-1] if rz.trans else 0):
+            # the same reading from the wall side: a wall time with exactly one pre-image in the data carries the type of
+            # that instant whatever its fold bit says
+            w = ts + exp[0]
+            if len(rz.preimages(w)) == 1:
+                ctx.count('single_preimage_wall_checks')
+                for f in (0, 1):
+                    ww = wall.replace(tzinfo=z, fold=f)
+                    if ww.utcoffset() != D.timedelta(seconds=exp[0]) or ww.tzname() != exp[2]:
+                        bad.append('wall time %s fold=%d reports %s %r, its only instant has %d s %r' % (wall.isoformat(), f, ww.utcoffset(), ww.tzname(), exp[0], exp[2]))
         if bad:
             n_bad += 1
             if n_bad <= 3:
